@@ -88,8 +88,10 @@ impl OutcomeTestGenerator for Outcome {
                 self.testcase.expectations.iter().for_each(|expectation| {
                     generated.push_str(&expectation.original_string().assure_newline())
                 });
-                if let Some(exit_code) = self.generate_testcase_exit_code() {
-                    generated.push_str(&exit_code)
+                // the test is valid: keep the exit code as it is written,
+                // which includes an explicit `[0]`
+                if let Some(exit_code) = self.testcase.exit_code {
+                    generated.push_str(&formatln!("[{}]", exit_code))
                 }
                 Ok(generated)
             }
@@ -137,7 +139,11 @@ impl OutcomeTestGenerator for Outcome {
                         generated
                             .push_str(&formatln!("{}", self.generate_expectation(line, index == 0)));
                     }
-                    generated.push_str(&formatln!("[{}]", *actual));
+                    // like everywhere else: exit code zero is not written,
+                    // or the next update would remove it again
+                    if *actual != 0 {
+                        generated.push_str(&formatln!("[{}]", *actual));
+                    }
                     Ok(generated)
                 }
                 TestCaseError::InternalError(err) => {
